@@ -2,7 +2,7 @@
    handler of every level (fix D48). *)
 From Coq Require Import List ZArith Bool Arith Lia Permutation.
 From NT Require Import Sx Rose ListFacts RoseFacts Surgery SurgeryFacts Machine WF MachineFacts PreserveSteps PreserveOps
-  PreserveMore PreserveKeepClones Heap HeapProofs HeapRemove HeapMove HeapSortDeep HeapRefine HeapFilter.
+  PreserveMore PreserveKeepClones Heap HeapProofs HeapRemove HeapMore HeapMove HeapCopy HeapSortDeep HeapRefine HeapFilter.
 Import ListNotations.
 
 (* ---- a tree state is determined by its rows (through the canonical heap of a state) ---- *)
@@ -578,3 +578,58 @@ Section GoodW.
     - rewrite E. cbn [trees]. f_equal. f_equal. now apply (GoodT_restore N0 p0 t0 N0pos W0 Lt0 tx t' G NoKids).
   Qed.
 End GoodW.
+
+Lemma sim_items ti p l hw w : RW hw w -> Rel2 RW RW (seq_items (h_from_dict_item ti p) l hw) (seq_items (v_item ti p) l w).
+Proof. intros H. apply (seq_rel _ _ RW RW); [|assumption]. apply Forall_forall. intros x _ a b Hab. now apply sim_item. Qed.
+
+Lemma vm_items ti p l w : Rel2 eq (fun a b => next a = next b) (seq_items (v_item ti p) l w) (seq_items (from_dict_item ti p) l w).
+Proof. apply (seq_rel _ _ eq (fun a b => next a = next b)); [|reflexivity]. apply Forall_forall. intros x _ a b <-. apply vm_item. Qed.
+
+Theorem sim_op_from_dict hw w ti p items : WFw w -> RepW hw w ->
+  Sim (h_op_from_dict hw ti p items) (op_from_dict w ti p items).
+Proof.
+  intros W RW0. unfold h_op_from_dict, op_from_dict. assert (G := RepW_get hw w ti RW0).
+  destruct (h_get hw ti) as [h|]; destruct (get_tree w ti) as [t|] eqn:Gt; try contradiction; [|now apply Sim_same].
+  assert (Wt := WFw_tree w ti t W Gt). unfold children_of. assert (Lp := h_plive_path h t p Wt G).
+  destruct (parent_path p (forest_of t)) as [pq|] eqn:Gp.
+  2:{ replace (h_plive h p) with false; [now apply Sim_same|]. destruct (h_plive h p); [|reflexivity]. destruct (proj1 Lp eq_refl) as (x & X). discriminate. }
+  rewrite (proj2 Lp (ex_intro _ pq eq_refl)). cbn [negb]. destruct (parent_path_get p _ pq Gp) as (ch & Gc). rewrite Gc.
+  rewrite (rep_children h t p pq ch Wt G Gp Gc). destruct ch as [|c ch]; cbn [map]; [|now apply Sim_same].
+  rewrite h_from_dict_items_eq, from_dict_items_eq.
+  assert (X1 := sim_items ti p items hw w (conj W RW0)). assert (X2 := vm_items ti p items w).
+  (* the half-built world stays good *)
+  unfold get_tree in Gt. destruct (nth_error_split _ _ Gt) as (a & b & Et & La). subst ti.
+  assert (Lt0 : forall m, In m (ids (forest_of t)) -> m < next w).
+  { intros m Hm. apply (WFw_tree_lt w (length a) t m W); [|assumption]. unfold get_tree. rewrite Et. apply nth_error_app_len. }
+  assert (G0 : GoodW a b (next w) p t w).
+  { split; [assumption|split; [lia|]]. exists t. split; [assumption|]. apply GoodT_init; auto. apply W. }
+  assert (G1 := good_items a b (next w) p t (ww_pos w W) Lt0 items p w G0 (or_introl eq_refl)).
+  unfold Rel2 in X1, X2.
+  destruct (seq_items (h_from_dict_item (length a) p) items hw) as [[r1|e1] hw1],
+           (seq_items (v_item (length a) p) items w) as [[r2|e2] wv],
+           (seq_items (from_dict_item (length a) p) items w) as [[r3|e3] wm]; try contradiction; cbn [snd] in *.
+  - subst wm. split; [reflexivity|apply X1].
+  - destruct X1 as [-> [Wv Rv]]. destruct X2 as [-> En]. split; [reflexivity|]. cbn [snd].
+    destruct (cleanup_rel hw1 wv (length a) p Wv Rv) as [_ Rc].
+    assert (Etr := good_restore a b (next w) p t (ww_pos w W) Wt Lt0 wv G1 (ex_intro _ pq (conj Gp Gc))).
+    assert (Enx := next_cleanup wv (length a) p).
+    destruct (v_cleanup wv (length a) p) as [ts nx]. cbn [trees next] in *. subst ts nx. now rewrite Et, <- En.
+Qed.
+
+Theorem sim_op_tree_from_dict hw w items : WFw w -> RepW hw w ->
+  Sim (h_op_tree_from_dict hw items) (op_tree_from_dict w items).
+Proof.
+  intros Ww RW0. unfold h_op_tree_from_dict, op_tree_from_dict. rewrite (RepW_length hw w RW0), (repw_next hw w RW0).
+  set (ti := length (trees w)). rewrite h_from_dict_items_eq, from_dict_items_eq.
+  assert (W1 : WFw (W (trees w ++ [TS [] [] [] false None]) (next w))) by (apply (WFw_new_tree w false None Ww)).
+  assert (R1 : RepW (HW (htrees hw ++ [h_empty false None]) (next w)) (W (trees w ++ [TS [] [] [] false None]) (next w))).
+  { apply RepW_app; [assumption|apply Rep_empty]. }
+  assert (X1 := sim_items ti 0 items _ _ (conj W1 R1)). assert (X2 := vm_items ti 0 items (W (trees w ++ [TS [] [] [] false None]) (next w))).
+  unfold Rel2 in X1, X2.
+  destruct (seq_items (h_from_dict_item ti 0) items _) as [[r1|e1] hw1],
+           (seq_items (v_item ti 0) items _) as [[r2|e2] wv],
+           (seq_items (from_dict_item ti 0) items _) as [[r3|e3] wm]; try contradiction; cbn [snd] in *.
+  - subst wm. split; [reflexivity|apply X1].
+  - destruct X1 as [-> [Wv Rv]]. destruct X2 as [-> En]. split; [reflexivity|]. cbn [snd].
+    constructor; cbn [hnext next htrees trees]; [now rewrite (repw_next _ _ Rv)|apply RW0].
+Qed.
